@@ -441,3 +441,43 @@ mut("deleted_table_stays_in_cache", ["C11"], "evict-before-delete", file="src/db
     old="""                                table_cache.remove(table_number);
                                 files_to_delete.push(file);""",
     new="""                                files_to_delete.push(file);""")
+
+# ---- ORD-8b / ORD-17 / ERR-2 / GRD-10 / verdict-stops-search / ORD-16
+mut("published_sequence_counts_only_leader_batch", ["C05", "C06"], "ORD-8b", file="src/db.rs",
+    old="""            let sequence_number_after_write = prev_sequence_number + (write_batch.len() as u64);""",
+    new="""            let sequence_number_after_write =
+                prev_sequence_number + (writer.maybe_batch().unwrap().len() as u64);""",
+    note="followers' entries get sequence numbers above the published bound")
+mut("manual_request_kept_after_error", ["C09"], "ORD-17", file="src/compaction/worker.rs",
+    old="""        if is_manual_compaction {
+            /*
+            The `.take` is fine""",
+    new="""        if is_manual_compaction && !has_compaction_error {
+            /*
+            The `.take` is fine""",
+    note="after a failed manual compaction the request stays in the slot: force_level_compaction never returns")
+mut("iterator_status_not_consulted", ["C08", "C07"], "ERR-2", file="src/compaction/worker.rs",
+    old="""            if compaction_error.is_none() {
+                compaction_error = file_iterator.get_error();
+            }
+""", new="")
+mut("base_level_excludes_smallest_key", ["C01", "C07"], "GRD-10", file="src/compaction/manifest.rs",
+    old="""                    if user_key >= file.smallest_key().get_user_key() {""",
+    new="""                    if user_key > file.smallest_key().get_user_key() {""")
+mut("imm_tombstone_falls_through", ["C01"], "verdict-stops-search", file="src/db.rs",
+    old="""                    if let Ok(maybe_value) = immutable_memtable.get(&internal_key) {
+                        match maybe_value {
+                            Some(value) => return Ok(Some(value.clone())),
+                            None => {
+                                // The value was deleted, as opposed to not found, so we stop
+                                // processing
+                                return Ok(None);
+                            }
+                        }
+                    }""",
+    new="""                    if let Ok(Some(value)) = immutable_memtable.get(&internal_key) {
+                        return Ok(Some(value.clone()));
+                    }""")
+mut("wal_gc_uses_optimistic_wal_number", ["C11", "C08", "C03"], "GRD-5", file="src/db.rs",
+    old="""                                wal_number >= db_fields_guard.version_set.get_curr_wal_number();""",
+    new="""                                wal_number >= db_fields_guard.curr_wal_file_number;""")
